@@ -22,6 +22,11 @@ REQUIRED = {'table': ['name', 'schema'], 'column': ['name', 'type'], 'index': ['
             'enum': ['name', 'schema', 'items'], 'enum_item': ['name'], 'reference': ['type', 'col1', 'col2']}
 
 
+# attributes the constructor takes: in the 'ctor' flavour they are left as the constructor stored them
+CTOR_ATTRS = {'table': ('name', 'schema'), 'column': ('name', 'type'), 'enum': ('name', 'schema'), 'enum_item': ('name',),
+              'reference': ('type',)}
+
+
 def make_element(kind, unset, attached, how):
     """Build an element of `kind` with the attributes in `unset` being None, reached through the
     constructor where it allows it (`how`='ctor') or by editing afterwards ('edit').
@@ -43,27 +48,35 @@ def make_element(kind, unset, attached, how):
         if db:
             db.add(el)
         for a in unset:
-            setattr(el, a, None)
+            if not (ctor and a in CTOR_ATTRS.get(kind, ())):
+                # what the constructor was given stays what the constructor made of it
+                setattr(el, a, None)
         return el, None, db
     if kind == 'column':
         el = Column(None if ctor and 'name' in unset else 'cx', None if ctor and 'type' in unset else 'int')
         t.add_column(el)
         for a in unset:
-            setattr(el, a, None)
+            if not (ctor and a in CTOR_ATTRS.get(kind, ())):
+                # what the constructor was given stays what the constructor made of it
+                setattr(el, a, None)
         return el, t, db
     if kind == 'index':
         el = Index([c], name='ix')
         if 'table' not in unset:
             t.add_index(el)
         for a in unset:
-            setattr(el, a, None)
+            if not (ctor and a in CTOR_ATTRS.get(kind, ())):
+                # what the constructor was given stays what the constructor made of it
+                setattr(el, a, None)
         return el, (t if 'table' not in unset else None), db
     if kind == 'enum':
         el = Enum(None if ctor and 'name' in unset else 'e', ['a', 'b'], schema=None if ctor and 'schema' in unset else 'public')
         if db:
             db.add(el)
         for a in unset:
-            setattr(el, a, None)
+            if not (ctor and a in CTOR_ATTRS.get(kind, ())):
+                # what the constructor was given stays what the constructor made of it
+                setattr(el, a, None)
         return el, None, db
     if kind == 'enum_item':
         el = EnumItem(None if ctor and 'name' in unset else 'it')
@@ -71,14 +84,18 @@ def make_element(kind, unset, attached, how):
         if db:
             db.add(holder)
         for a in unset:
-            setattr(el, a, None)
+            if not (ctor and a in CTOR_ATTRS.get(kind, ())):
+                # what the constructor was given stays what the constructor made of it
+                setattr(el, a, None)
         return el, holder, db
     if kind == 'reference':
         el = Reference(None if ctor and 'type' in unset else '>', c, oc)
         if db:
             db.add(el)
         for a in unset:
-            setattr(el, a, None)
+            if not (ctor and a in CTOR_ATTRS.get(kind, ())):
+                # what the constructor was given stays what the constructor made of it
+                setattr(el, a, None)
         return el, None, db
     raise ValueError(kind)
 
